@@ -42,6 +42,10 @@ CHECKS = {
    text="Per explored grammar (textbook families, random grammars, operator grammars with random precedence tables), kernel-evaluated: the table dumped from Spec.LALRParsingTable is, entry for entry, the LALR(1) table of the dumped grammar and precedence levels according to the independent Coq definition (Cfg/Lalr.v), and passes the proved safety check (hence, by certified_table_is_sound, every accepted input of ANY length is a sentence with the callbacks in derivation order); when emerge rejects, the reference construction leaves exactly the reported entries unresolved (no silent resolution, no false rejection). Universal Coq theorems state the documented resolution rule as decision rules. Operator grammars additionally run random expressions on the table and compare with precedence climbing. Known finding D25 (dependency merges GOTO targets into superset states; wrong acceptance exhibited) is reported, not certified.",
    note=TB + "The LALR(1) construction and resolution are the dependency's: validated per instance against an executable Coq reference definition (unproved), not modelled. Completeness for conflict-free tables is not proved (lr_complete missing).",
    tech="translation validation: per-instance kernel check against a Coq LALR(1) reference + proved safety check; Coq decision-rule theorems"),
+ "C01": dict(cat="proof",
+   text="Universal Coq theorem (Cfg/Ebnf.v, Cfg/Translate.v): for every rule list, naming of synthesised non-terminals and production set satisfying a decidable premise (the production set is one production per alternative plus the expansions gen->a|eps, gen->gen a|eps, gen->gen a|a, gen->a; synthesised names distinct per (alternatives, kind) and distinct from every user-mentioned name), every user rule generates exactly the terminal strings its EBNF text denotes — for all nestings/combinations of ( ) [ ] { } {{ }} | and trailing |, all sentences of all lengths. The production set and naming are those of the Coq model of emerge's symbol table (reduce actions by production index, memo keyed by multiset of alternatives, name synthesis, counter), run through the full front-end model (scanner, LR driver, tree) on each generated specification; the kernel evaluates the premise per specification and the production set is compared with spec.Parse. Known finding D2 (name collisions) is refuted by a witness theorem and reported; D1 was found by this check and fixed.",
+   note=TB + "The symbol table and reduce actions are modelled by hand (Emerge/SpecModel.v) and tied to spec.Parse by comparing the production set on generated specifications; the failing-input search uses an independent bounded EBNF evaluator (Python).",
+   tech="Coq proof (translate_preserves / pure_ok_sound) + kernel-evaluated premise per specification + differential correspondence of the production set"),
 }
 
 ORDER = sorted(CHECKS)
